@@ -2,7 +2,7 @@
 (***************************************************************************)
 (* IMPLEMENTATION layer: h2's server-push machinery, both roles.           *)
 (* Written from src/proto/streams/{streams,send,recv,prioritize,state,     *)
-(* counts,stream,store}.rs at HEAD (incl. 76f0644).                        *)
+(* counts,stream,store}.rs at HEAD 96e424f (repairs of P1-P4, P6, P7, P9).  *)
 (*                                                                         *)
 (* One action per critical section (one hold of the `Inner` mutex), named  *)
 (* after the function that takes the lock; helpers of the code are         *)
@@ -63,6 +63,9 @@ CONSTANTS Role,           \* "s" | "c"
           ResetMax,       \* max_concurrent_reset_streams
           ErrorResetMax,  \* max_local_error_reset_streams (lifetime quota)
           LazyClient,     \* client role: TRUE = the application has not yet taken the PushPromises handle of its requests (replay: ReadPol.start_q)
+          OldPushBugs,    \* TRUE: the behaviour before the repairs of P1 / P2 / P3 / P4 / P6 / P9 (notes/push_model.md section 7): pop_frame unwraps the
+                          \*       promised stream, frames on a still-queued promise are accepted, inc_num_recv_streams asserts, buffer_pending
+                          \*       returns Complete after an empty pop_frame
           OldIdleCheck    \* TRUE: the behaviour before commit 76f0644 (binding experiment)
 
 VARIABLES rec, cn, qSend, qOpen, qReset,
@@ -174,7 +177,17 @@ QueueFrame(G, k, f) == ScheduleSend([G EXCEPT !.rec[k].pendingSend = Append(@, f
 QueueOpen(G, k) == IF G.rec[k].isPendingOpen THEN G
                    ELSE IF G.rec[k].isPendingSend THEN Fail(G, "queue_open_debug_assert")     \* NextOpen::set_queued: debug_assert!(!stream.is_pending_send)
                    ELSE [G EXCEPT !.rec[k].isPendingOpen = TRUE, !.qO = Append(@, k)]
-ClearQueue(G, k) == [G EXCEPT !.rec[k].pendingSend = <<>>]
+\* Prioritize::clear_queue. Since 96e424f (repair of P4): every PUSH_PROMISE dropped from the (parent's) queue cancels its promised stream, found BY ID:
+\* is_pending_push = false, set_reset(CANCEL, Library) whatever the state was, its own queue cleared, and `pending_send.push(pushed)`: the id map is
+\* not touched here (callers iterate over it); pop_frame releases the record later as a dangling entry (or clear_pending_send at the end). No RST_STREAM.
+CancelPromised(G, id) ==
+    LET kp == LinkedKey(G, id) IN
+    IF kp = NoKey THEN G
+    ELSE QPushSend([G EXCEPT !.rec[kp].isPendingPush = FALSE, !.rec[kp].state = StClosedReset(FALSE, CANCEL, "Library"), !.rec[kp].pendingSend = <<>>], kp)
+RECURSIVE ClearFrames(_, _)
+ClearFrames(G, fs) == IF fs = <<>> THEN G
+                      ELSE ClearFrames(IF Head(fs).ty = "PUSH_PROMISE" /\ ~OldPushBugs THEN CancelPromised(G, Head(fs).prom) ELSE G, Tail(fs))
+ClearQueue(G, k) == [ClearFrames(G, G.rec[k].pendingSend) EXCEPT !.rec[k].pendingSend = <<>>]
 
 \* ---- recv.rs: enqueue_reset_expiration ------------------------------------------------------------------
 EnqueueResetExpiration(G, k) ==
@@ -231,13 +244,19 @@ InnerSendReset(G, s, reason) ==
 
 \* Streams::handle_error on every record reachable through Store.ids (err = GoAway(code, init))
 RECURSIVE HandleErrorKeys(_, _, _, _)
+\* Store::try_for_each tolerates ONE id leaving the map per callback (debug_assert!(new_len == len - 1); in a release build `len` is then one too
+\* large and get_index(i).unwrap() fails later). The first repair of P4 (d579740, withdrawn) let the callback on a parent remove two - the promised
+\* stream and the parent itself (finding P11); 96e424f does not touch the id map in clear_queue. The check stays as a monitor: no path reaches it.
+NLinked(G) == Cardinality({k \in Keys : G.rec[k].linked})
+ForEachStep(G, H) == IF NLinked(G) - NLinked(H) >= 2 THEN Fail(H, "for_each_debug_assert") ELSE H
 HandleErrorKeys(G, ks, code, init) ==
-    IF ks = {} THEN G
+    IF ks = {} \/ ~G.ok THEN G
     ELSE LET k == CHOOSE x \in ks : \A y \in ks : x[1] < y[1] \/ (x[1] = y[1] /\ x[2] <= y[2])
              r == G.rec[k]
              G1 == IF IsClosedSt(r.state) THEN G ELSE [G EXCEPT !.rec[k].state = StClosedGoAway(code, init)]
              G2 == ClearQueue(G1, k)
-         IN HandleErrorKeys(TransitionAfter(G2, k, r.resetAt), ks \ {k}, code, init)
+         IN IF ~r.linked THEN HandleErrorKeys(G, ks \ {k}, code, init)          \* (left the map in an earlier callback)
+            ELSE HandleErrorKeys(ForEachStep(G, TransitionAfter(G2, k, r.resetAt)), ks \ {k}, code, init)
 
 \* Err(GoAway) out of recv_frame => handle_go_away: handle_error on all streams, GOAWAY(last_processed_id, code), the connection ends
 Finish(G) ==
@@ -331,7 +350,7 @@ PopPendingOpen(G) ==
 \* pop_frame, arm Some(Frame::PushPromise(pp)): `stream.store_mut().find_mut(&pp.promised_id()).unwrap()`
 PushPromiseArm(G, id) ==
     LET kp == LinkedKey(G, id) IN
-    IF kp = NoKey THEN Fail(G, "pp_unwrap")                     \* Option::unwrap() on None: the connection task panics, the mutex is poisoned
+    IF kp = NoKey THEN Fail(G, "pp_unwrap")                     \* (OldPushBugs only) Option::unwrap() on None: the connection task panics
     ELSE LET G1 == [G EXCEPT !.rec[kp].isPendingPush = FALSE] IN
          IF G1.rec[kp].pendingSend = <<>> THEN G1
          ELSE IF CanIncSend(G1) THEN QPushSend(IncNumSend(G1, kp), kp) ELSE QueueOpen(G1, kp)
@@ -347,6 +366,12 @@ PopLoop(G) ==
             THEN LET f == Head(r.pendingSend) IN
                  IF f.ty = "DATA" /\ IsSchedSt(r.state) /\ r.state.reason # NO_ERROR
                  THEN PopLoop(QPushSend(ClearQueue(G0, k), k))
+                 ELSE IF f.ty = "PUSH_PROMISE" /\ LinkedKey(G0, f.prom) = NoKey /\ ~OldPushBugs
+                 THEN \* the promised stream was closed and forgotten while its PUSH_PROMISE was queued: the frame is dropped, the parent
+                      \* re-queued if it has more to send, transition_after(parent), continue
+                      LET G1 == [G0 EXCEPT !.rec[k].pendingSend = Tail(@)]
+                          G2 == IF G1.rec[k].pendingSend # <<>> \/ IsSchedSt(G1.rec[k].state) THEN QPushSend(G1, k) ELSE G1
+                      IN PopLoop(TransitionAfter(G2, k, wasReset))
                  ELSE LET Gp == IF f.ty = "PUSH_PROMISE" THEN PushPromiseArm(G0, f.prom) ELSE G0
                           G1 == [Gp EXCEPT !.rec[k].pendingSend = Tail(@), !.out = Append(@, Wire(k[1], f))]
                           G2 == IF G1.rec[k].pendingSend # <<>> \/ IsSchedSt(G1.rec[k].state) THEN QPushSend(G1, k) ELSE G1
@@ -489,13 +514,17 @@ RecvReset(s) ==
                 THEN \* Actions::ensure_not_idle
                      IF (IsLocalId(s) /\ s >= G.cn.nextSendId) \/ (~IsLocalId(s) /\ s >= G.cn.nextRecvId) THEN [G EXCEPT !.err = PROTOCOL_ERROR] ELSE G
                 ELSE LET r == G.rec[k0] IN
-                     IF r.isPendingOpen /\ (Role = "c" \/ OldIdleCheck) THEN [G EXCEPT !.err = PROTOCOL_ERROR]      \* "received frame on idle stream"
+                     IF (r.isPendingOpen /\ (Role = "c" \/ OldIdleCheck)) \/ (r.isPendingPush /\ ~OldPushBugs)
+                     THEN [G EXCEPT !.err = PROTOCOL_ERROR]                                     \* "received frame on idle stream"
                      ELSE LET queued == r.isPendingSend \/ r.pendingSend # <<>>
                               st2 == IF IsClosedSt(r.state) /\ ~queued THEN r.state
                                      ELSE StClosedReset(IsRecvEndStreamSt(r.state), CANCEL, "Remote")          \* State::recv_reset
                           IN TransitionAfter(ClearQueue([G EXCEPT !.rec[k0].state = st2], k0), k0, r.resetAt)   \* + send.handle_error
            g1 == IF legal /\ B.err >= 0 THEN Note(gh, "c09", "legal RST_STREAM answered with a connection error") ELSE gh
-           g2 == IF ~legal /\ B.err < 0 THEN Note(g1, "c09s", "RST_STREAM on a stream that is idle on the wire accepted") ELSE g1
+           g2 == IF ~legal /\ B.err < 0
+                 THEN Note(g1, "c09s", IF k0 # NoKey /\ G.rec[k0].isPendingPush THEN "RST_STREAM on a promised stream whose PUSH_PROMISE is still queued accepted"
+                                       ELSE "RST_STREAM on an id the store does not know (never promised on the wire) accepted")
+                 ELSE g1
        IN CommitW(Finish(B), [wire EXCEPT ![s].prst = TRUE], g2)
     /\ UNCHANGED app
 
@@ -507,10 +536,14 @@ RecvWindowUpdate(s) ==
            legal == NotIdleOnWire(s)
            B == IF k0 = NoKey
                 THEN IF (IsLocalId(s) /\ s >= G.cn.nextSendId) \/ (~IsLocalId(s) /\ s >= G.cn.nextRecvId) THEN [G EXCEPT !.err = PROTOCOL_ERROR] ELSE G
-                ELSE IF G.rec[k0].isPendingOpen /\ (Role = "c" \/ OldIdleCheck) THEN [G EXCEPT !.err = PROTOCOL_ERROR]
+                ELSE IF (G.rec[k0].isPendingOpen /\ (Role = "c" \/ OldIdleCheck)) \/ (G.rec[k0].isPendingPush /\ ~OldPushBugs)
+                     THEN [G EXCEPT !.err = PROTOCOL_ERROR]
                      ELSE G                                                          \* A1: the send window is not modelled
            g1 == IF legal /\ B.err >= 0 THEN Note(gh, "c09", "legal WINDOW_UPDATE answered with a connection error") ELSE gh
-           g2 == IF ~legal /\ B.err < 0 THEN Note(g1, "c09s", "WINDOW_UPDATE on a stream that is idle on the wire accepted") ELSE g1
+           g2 == IF ~legal /\ B.err < 0
+                 THEN Note(g1, "c09s", IF k0 # NoKey /\ G.rec[k0].isPendingPush THEN "WINDOW_UPDATE on a promised stream whose PUSH_PROMISE is still queued accepted"
+                                       ELSE "WINDOW_UPDATE on an id the store does not know (never promised on the wire) accepted")
+                 ELSE g1
        IN CommitW(Finish(B), wire, g2)
     /\ UNCHANGED app
 
@@ -582,11 +615,12 @@ IdleClose ==
 \* ---- end of the connection -------------------------------------------------------------------------------------------------
 RECURSIVE RecvEofKeys(_, _)
 RecvEofKeys(G, ks) ==
-    IF ks = {} THEN G
+    IF ks = {} \/ ~G.ok THEN G
     ELSE LET k == CHOOSE x \in ks : \A y \in ks : x[1] < y[1] \/ (x[1] = y[1] /\ x[2] <= y[2])
              r == G.rec[k]
              G1 == IF IsClosedSt(r.state) THEN G ELSE [G EXCEPT !.rec[k].state = StClosedIo]
-         IN RecvEofKeys(TransitionAfter(ClearQueue(G1, k), k, r.resetAt), ks \ {k})
+         IN IF ~r.linked THEN RecvEofKeys(G, ks \ {k})
+            ELSE RecvEofKeys(ForEachStep(G, TransitionAfter(ClearQueue(G1, k), k, r.resetAt)), ks \ {k})
 RECURSIVE ClearAllReset(_)
 ClearAllReset(G) == IF G.qR = <<>> THEN G
                     ELSE LET k == Head(G.qR)
@@ -604,7 +638,7 @@ ClearPendingOpen(G) == IF G.qO = <<>> THEN G
                                 G0 == [Deref(G, k) EXCEPT !.qO = Tail(@), !.rec[k].isPendingOpen = FALSE]
                             IN ClearPendingOpen(TransitionAfter(G0, k, G0.rec[k].resetAt))
 \* Inner::recv_eof + Actions::clear_queues (pending_accept: nothing is pending accept in this model)
-RecvEof(G) == ClearPendingOpen(ClearPendingSend(ClearAllReset(RecvEofKeys(G, LinkedKeys(G)))))
+RecvEof(G) == LET E == RecvEofKeys(G, LinkedKeys(G)) IN IF ~E.ok THEN E ELSE ClearPendingOpen(ClearPendingSend(ClearAllReset(E)))
 
 PeerEof ==
     /\ CanRecv
@@ -628,11 +662,13 @@ RecvPushPromise(p, s, safe) ==
            \* RFC 9113 6.6 / 8.4: on a stream the server has neither ended nor reset (our own RST_STREAM may be in flight), ids increasing
            legal == ~wire[p].pes /\ ~wire[p].prst /\ s > gh.lastProm /\ safe
            pr == G.rec[kp]
-           parentReset == kp # NoKey /\ IsLocalErrorSt(pr.state)
+           \* (since 1faa659: a parent we reset and have already forgotten - may_have_forgotten_stream - is treated like a remembered reset one)
+           forgot == kp = NoKey /\ IsLocalId(p) /\ p < G.cn.nextSendId
+           parentReset == (kp # NoKey /\ IsLocalErrorSt(pr.state)) \/ forgot
            ero == IF kp = NoKey THEN "-" ELSE EnsureRecvOpen(pr.state)
            kc == Main(s)
            ignored == kp # NoKey /\ ~parentReset /\ ero = "err"         \* Err(Reset(.., Remote)) out of ensure_recv_open()?: handle_poll2_result drops it
-           B == IF kp = NoKey THEN [G EXCEPT !.err = PROTOCOL_ERROR]                               \* "initiating stream is in an invalid state"
+           B == IF kp = NoKey /\ ~forgot THEN [G EXCEPT !.err = PROTOCOL_ERROR]                    \* "initiating stream is in an invalid state"
                 ELSE IF ignored THEN G
                 ELSE IF ~parentReset /\ ero = "closed" THEN [G EXCEPT !.err = PROTOCOL_ERROR]      \* "initiating stream is not opened"
                 ELSE IF ~G.cn.pushEnabled THEN [G EXCEPT !.err = PROTOCOL_ERROR]                    \* ensure_can_reserve
@@ -654,7 +690,7 @@ RecvPushPromise(p, s, safe) ==
                        ELSE Note(g0, "c09", "legal PUSH_PROMISE answered with a connection error"))
                  ELSE g0
            g2 == IF ~legal /\ ~pen THEN Note(g1, "c09s", IF ignored THEN "PUSH_PROMISE on a parent the server had reset: dropped silently" ELSE "illegal PUSH_PROMISE accepted") ELSE g1
-       IN /\ (kp # NoKey /\ parentReset /\ ~ignored => CanTomb(G, s))
+       IN /\ (parentReset /\ ~ignored => CanTomb(G, s))
           /\ CommitW(Finish(B), IF ignored \/ B.err >= 0 THEN wire ELSE [wire EXCEPT ![s].pp = TRUE], g2)     \* (a promise we dropped / died on reserves nothing)
     /\ UNCHANGED app
 
@@ -667,6 +703,8 @@ RecvPushedHeaders(s, eos) ==
            legal == w.pp /\ ~w.pes /\ ~w.prst /\ (w.phdr => eos)      \* (whether the server respects our concurrency limit is left to the counters: InvAssert / finding P6)
            forgotten == k0 = NoKey /\ s < G.cn.nextRecvId
            ignored == k0 # NoKey /\ IsLocalErrorSt(G.rec[k0].state)
+           \* the server opens more promised streams than we advertised (RFC 9113 5.1.2): refused, not a penalty for a legal frame
+           overLimit == k0 # NoKey /\ G.rec[k0].state.k = "ReservedRemote" /\ ~G.rec[k0].isCounted /\ ~CanIncRecv(G)
            B == IF k0 = NoKey
                 THEN IF forgotten THEN InnerSendReset(G, s, STREAM_CLOSED)            \* "recv_headers for old stream": Err(library_reset(id, STREAM_CLOSED))
                      ELSE [G EXCEPT !.err = PROTOCOL_ERROR]                            \* ensure_can_open: a client opens remote streams by PUSH_PROMISE only
@@ -677,7 +715,12 @@ RecvPushedHeaders(s, eos) ==
                               THEN \* Recv::recv_headers: recv_open (initial); counts.inc_num_recv_streams(stream) - assert!(can_inc_num_recv_streams())
                                    LET G1 == [G EXCEPT !.rec[k0].state = IF eos THEN StClosedES ELSE StHCL("S"), !.rec[k0].hasResp = TRUE,
                                                         !.cn.lastProcessedId = IF s > @ THEN s ELSE @]
-                                   IN IF r.isCounted THEN G1 ELSE IncNumRecv(G1, k0)
+                                   IN IF r.isCounted THEN G1
+                                      ELSE IF ~CanIncRecv(G1) /\ ~OldPushBugs
+                                      THEN \* "max concurrent streams exceeded": stream error REFUSED_STREAM (after recv_open: HEADERS + END_STREAM leave a
+                                           \* closed, flushed stream - Send::send_reset then queues no frame); no Headers event is stored
+                                           ResetOnRecvStreamErr([G1 EXCEPT !.rec[k0].hasResp = FALSE], k0, REFUSED_STREAM)
+                                      ELSE IncNumRecv(G1, k0)
                               ELSE IF ~eos THEN ResetOnRecvStreamErr(G, k0, PROTOCOL_ERROR)         \* trailers without END_STREAM
                               ELSE IF r.state.k = "HalfClosedLocal" THEN [G EXCEPT !.rec[k0].state = StClosedES]      \* recv_trailers: recv_close
                               ELSE [G EXCEPT !.err = PROTOCOL_ERROR]
@@ -685,7 +728,7 @@ RecvPushedHeaders(s, eos) ==
            pen == B.err >= 0 \/ B.cn.numLocalErrorReset > G.cn.numLocalErrorReset \/ ignored \/ ~B.ok
            \* (a frame that raced with our own RST_STREAM / refusal may be answered with a second RST_STREAM)
            g1 == IF legal /\ B.err >= 0 /\ B.err # ENHANCE_YOUR_CALM THEN Note(gh, "c09", "legal pushed response HEADERS penalised")
-                 ELSE IF legal /\ B.cn.numLocalErrorReset > G.cn.numLocalErrorReset /\ ~w.rst THEN Note(gh, "c09s", "legal frame on a promised stream we cancelled and forgot answered with a stream error") ELSE gh
+                 ELSE IF legal /\ B.cn.numLocalErrorReset > G.cn.numLocalErrorReset /\ ~w.rst /\ ~overLimit THEN Note(gh, "c09s", "legal frame on a promised stream we cancelled and forgot answered with a stream error") ELSE gh
            g2 == IF ~legal /\ ~pen THEN Note(g1, "c09s", "illegal HEADERS on a promised stream accepted") ELSE g1
        IN /\ (forgotten => CanTomb(G, s))
           /\ CommitW(Finish(B), [wire EXCEPT ![s].phdr = TRUE, ![s].pes = eos], g2)
